@@ -159,6 +159,8 @@ class Gen:
 			return f'{self.name()}: {self.type_()} = {e()}'
 		if r < 0.34:
 			return f'{self.name()}: {self.type_()}'
+		if r < 0.36:
+			return self.rng.choice([f'{self.name()}: TypeAlias = {self.type_()}', f"{self.name()}: '{self.rng.choice(['A', 'list[int]'])}' = {e()}", f'{self.name()}: ClassVar[int] = {e()}'])
 		if r < 0.40:
 			return f"{self.name()} {self.rng.choice(['+=', '-=', '*=', '/=', '%=', '&=', '|=', '^=', '<<=', '>>='])} {e()}"
 		if r < 0.45:
